@@ -65,18 +65,22 @@ func histClasses(ops []*Op) (nontrivial bool, classes []string) {
 
 // checkPrefix judges one observed output against the model of the ops so far.
 func checkPrefix(route string, ops []*Op, out []byte) error {
+	segs, exact := modelOps(ops, 0)
+	return checkAgainst(route, prefixModel{strip: modelStrip(segs), safe: modelSafeText(segs), exact: exact}, out)
+}
+
+func checkAgainst(route string, m prefixModel, out []byte) error {
 	if !LS(out) {
 		return fmt.Errorf("%s: output %s is not well-formed and line-safe", route, q(out))
 	}
-	segs, exact := modelOps(ops, 0)
-	if !exact {
+	if !m.exact {
 		return nil
 	}
-	if got, want := strip(out), modelStrip(segs); !bytes.Equal(got, want) {
-		return fmt.Errorf("%s: output %s stripped is %s, want the payloads in call order %s", route, q(out), q(got), q(want))
+	if got := strip(out); !bytes.Equal(got, m.strip) {
+		return fmt.Errorf("%s: output %s stripped is %s, want the payloads in call order %s", route, q(out), q(got), q(m.strip))
 	}
-	if got, want := delEnv(out), modelSafeText(segs); !bytes.Equal(got, want) {
-		return fmt.Errorf("%s: output %s without envelopes is %s, want safe payloads + line feeds of unsafe ones %s", route, q(out), q(got), q(want))
+	if got := delEnv(out); !bytes.Equal(got, m.safe) {
+		return fmt.Errorf("%s: output %s without envelopes is %s, want safe payloads + line feeds of unsafe ones %s", route, q(out), q(got), q(m.safe))
 	}
 	return nil
 }
@@ -128,17 +132,31 @@ func checkC09(h *HistSpec) Result {
 	res.NonTrivial, res.Classes = histClasses(h.Ops)
 	fail := func(err error) Result { res.Err = err; return res }
 
-	// StringBuilder: every prefix
+	// every prefix is judged; for histories with bulky payloads (quadratic
+	// cost) only the prefixes ending at the first 6, every 8th and the last op
+	bulk := 0
+	for _, op := range h.Ops {
+		bulk += len(op.S)
+	}
+	models := modelPrefixes(h.Ops, 0)
+	skip := func(i int) bool { return bulk > 8192 && i >= 6 && i%8 != 0 && i != len(h.Ops)-1 }
+	// StringBuilder
 	outSB, err := runOnSB(h.Ops, h.Grow, func(i int, sb *redact.StringBuilder) error {
+		if skip(i) {
+			return nil
+		}
 		c := redact.StringBuilder{Buffer: *sb.Buffer.VerifClone()}
-		return checkPrefix(fmt.Sprintf("StringBuilder after op %d", i), h.Ops[:i+1], []byte(c.RedactableString()))
+		return checkAgainst(fmt.Sprintf("StringBuilder after op %d", i), models[i], []byte(c.RedactableString()))
 	})
 	if err != nil {
 		return fail(err)
 	}
 	// ManualBuffer: every prefix
 	outMB, err := runOnMB(h.Ops, h.Grow, func(i int, mb *redact.ManualBuffer) error {
-		return checkPrefix(fmt.Sprintf("ManualBuffer after op %d", i), h.Ops[:i+1], []byte(mb.VerifClone().RedactableString()))
+		if skip(i) {
+			return nil
+		}
+		return checkAgainst(fmt.Sprintf("ManualBuffer after op %d", i), models[i], []byte(mb.VerifClone().RedactableString()))
 	})
 	if err != nil {
 		return fail(err)
@@ -159,6 +177,16 @@ func checkC09(h *HistSpec) Result {
 	outSF := runOnSafeFormatter(h.Ops)
 	if err := checkPrefix("SafeFormat method under Sprint", h.Ops, outSF); err != nil {
 		return fail(err)
+	}
+	// the flags of %+v and %#v are not handed to the safe methods: the
+	// payloads land unchanged under these directives too
+	if exact {
+		for _, d := range []string{"%+v", "%#v"} {
+			o := []byte(redact.Sprintf(d, newSafeFmtV(h.Ops, 0)))
+			if err := checkPrefix("SafeFormat method under "+d, h.Ops, o); err != nil {
+				return fail(err)
+			}
+		}
 	}
 	if exact {
 		if !bytes.Equal(normE(outSB), normE(outFn)) {
